@@ -47,6 +47,9 @@ type Session struct {
 	conn     net.Conn
 	brw      *bufio.ReadWriter
 	vals     map[string]interface{}
+	// tunnelHost is the authority of the CONNECT request that opened the
+	// tunnel this session's requests are read from, if any.
+	tunnelHost string
 }
 
 var (
@@ -154,6 +157,22 @@ func (s *Session) setConn(conn net.Conn, brw *bufio.ReadWriter) {
 
 	s.conn = conn
 	s.brw = brw
+}
+
+// setTunnelHost records the authority a CONNECT request asked for. Requests
+// read from inside the tunnel that name no host are addressed to it.
+func (s *Session) setTunnelHost(host string) {
+	s.mu.Lock()
+	defer s.mu.Unlock()
+
+	s.tunnelHost = host
+}
+
+func (s *Session) getTunnelHost() string {
+	s.mu.RLock()
+	defer s.mu.RUnlock()
+
+	return s.tunnelHost
 }
 
 // Get takes key and returns the associated value from the session.
